@@ -49,8 +49,16 @@ SHAPE = [
     ("agent/conncheck.c", "priv_conn_keepalive_tick_unlocked", "if (component->selected_pair.local != NULL) { CandidatePair *p = &component->selected_pair;"),
     ("agent/conncheck.c", "priv_conn_keepalive_tick_unlocked", "if (NICE_AGENT_DO_KEEPALIVE_CONNCHECKS (agent)) uname_len = priv_create_username ("),
     ("agent/conncheck.c", "priv_conn_keepalive_tick_unlocked", "if (uname_len > 0) { uint8_t *password = NULL;"),
-    ("agent/conncheck.c", "priv_conn_keepalive_tick_unlocked", "buf_len = stun_usage_ice_conncheck_create (&component->stun_agent,"),
-    ("agent/conncheck.c", "priv_conn_keepalive_tick_unlocked", "if (buf_len > 0) { double modifier = g_random_double() * 0.4 + 0.8;"),
+    # the previous keepalive transaction of the pair is forgotten before the next check is built, the new one remembered (fix e9d3c51)
+    ("agent/component.h", None,
+     "struct _CandidatePairKeepalive { guint64 next_tick; guint stream_id; guint component_id; StunTimer timer; gboolean has_transaction; StunTransactionId transaction_id; };"),
+    ("agent/component.h", None, "CandidatePairKeepalive keepalive;"),
+    ("agent/conncheck.c", "priv_conn_keepalive_tick_unlocked",
+     "if (p->keepalive.has_transaction) { stun_agent_forget_transaction (&component->stun_agent, p->keepalive.transaction_id); p->keepalive.has_transaction = FALSE; } buf_len = stun_usage_ice_conncheck_create (&component->stun_agent,"),
+    ("agent/conncheck.c", "priv_conn_keepalive_tick_unlocked",
+     "if (buf_len > 0) { stun_message_id (&stun_message, p->keepalive.transaction_id); p->keepalive.has_transaction = TRUE; double modifier = g_random_double() * 0.4 + 0.8;"),
+    ("stun/stunagent.c", "stun_agent_forget_transaction",
+     "for (i = 0; i < STUN_AGENT_MAX_SAVED_IDS; i++) { if (agent->sent_ids[i].valid == TRUE && memcmp (id, agent->sent_ids[i].id, sizeof(StunTransactionId)) == 0) { agent->sent_ids[i].valid = FALSE; return TRUE; } } return FALSE;"),
     ("agent/conncheck.c", "priv_conn_keepalive_tick_unlocked",
      "p->keepalive.next_tick = now + delay; if (p->remote_consent.have) { if (p->remote_consent.last_received == 0) { p->remote_consent.last_received = g_get_monotonic_time(); } priv_conn_remote_consent_tick_agent_locked (agent, p); }"),
     ("agent/conncheck.c", "priv_conn_keepalive_tick_unlocked",
@@ -139,6 +147,14 @@ def consent_session_shape():
     pos = [h.find(x) for x in order]
     if -1 in pos or pos != sorted(pos):
         return None, "agent/conncheck.c no longer contains the modelled statement `%s` in the modelled order" % " ... ".join(order)
+    # keepalive.has_transaction / transaction_id are touched by the keepalive tick only (and by the memset of a pair change)
+    import glob
+    for f in sorted(glob.glob(os.path.join(vlib.REPO, "agent", "*.c"))):
+        txt = _flat(open(f).read())
+        n = len(re.findall(r"has_transaction|keepalive\.transaction_id", txt))
+        want = 5 if f.endswith("agent/conncheck.c") else 0
+        if n != want:
+            return None, "agent/%s no longer contains the modelled statement `keepalive.has_transaction / transaction_id used by priv_conn_keepalive_tick_unlocked only` (%d uses, %d modelled)" % (os.path.basename(f), n, want)
     m = re.search(r"#define\s+STUN_AGENT_MAX_SAVED_IDS\s+(\d+)", open(os.path.join(vlib.REPO, "stun/constants.h")).read())
     if not m:
         return None, "STUN_AGENT_MAX_SAVED_IDS not found in stun/constants.h"
@@ -180,7 +196,7 @@ Definition code (o : output) : Z * Z :=
   match o with OState FAILED => (1, 0) | OState _ => (9, 0) | OSend true => (2, 1) | OSend false => (2, 0) | OAnswer k => (3, k)
              | OCheck tid => (4, tid) | OIndication => (5, 0) | ORevoke true => (6, 1) | ORevoke false => (6, 0) end.
 Definition show (l : list (Z * list output)) : list (Z * Z * Z) := flat_map (fun p => map (fun o => (fst p, fst (code o), snd (code o))) (snd p)) l.
-Definition cF : cfg := {| fresh := true; kcc := false |}.
+Definition cF : cfg := {| fresh := true; kcc := false; forget_prev := true |}.
 """
 
 
